@@ -50,6 +50,12 @@ CHECKS.update({
          "whitespace IFS only (stated domain); bash 5.2.15 reference; a literal `:` directly after a tilde prefix is kept out of the generated words (bash's own rule there depends on quoting later in the word)", "DESIGN.md §3 C05"),
 })
 
+CHECKS.update({
+ "C06": ("grammar-based property testing of (value, operator, operand) triples, differential oracle vs bash 5.2.15; prefix/suffix removal additionally against the harness's reference matcher",
+         "4k (quick) / 60k (thorough) generated batches of 8-14 parameter expansions over scalars, positional parameters, indexed (dense and sparse) and associative arrays, unset/null/declared-unset variables, every operator family of the statement, quoted and unquoted, with and without nounset; output, exit status and stderr emptiness compared with bash; ${v#p} ${v##p} ${v%p} ${v%%p} with literal patterns also checked against the property's own definition. Exploration.",
+         "bash 5.2.15 reference; kept out of the generated domain because bash itself is irregular there: patterns that can match the empty string in ${p/pat/rep}, negative lengths on arrays/positional parameters, ${@@A}/${a[@]@A}, @Q/@A text of values containing single quotes (round-trip is C13's subject), locale-dependent classes on non-ASCII values", "DESIGN.md §3 C06"),
+})
+
 NOT_YET = {}
 
 def hooks():
